@@ -2,8 +2,9 @@
 
 proof: lean/CashewsVerif/Props/C12.lean (invariant "a live key whose latest write carried t is a member of the
        live set _tag:t whose deadline is not earlier than the key's", completeness and precision of delete_tags).
-tie:   generated histories of tagged / untagged set, incr, decorated calls (also of functions that mutate their list /
-       dict arguments in place), delete, delete_many, delete_match (glob patterns, wildcard-free patterns naming one
+tie:   generated histories of tagged / untagged set, incr, decorated calls (the simple @cache, also of functions that mutate
+       their list / dict arguments in place, and every other decorator that takes tags=: early with foreground and
+       background recalculation, soft, hit, dynamic - reaching their RE-WRITES of a live entry), delete, delete_many, delete_match (glob patterns, wildcard-free patterns naming one
        key, patterns matching nothing), time advance and delete_tags run on the real `Cache` facade (mem://, tag sets in the same or in a separate
        backend, purge task on/off) under the virtual clock and on the model driver; compared line by line
        (impl == model), and the property statement itself is evaluated on the implementation's observations from
@@ -21,6 +22,9 @@ from ..core import ROOT, Check, Driver, HarnessError, ddmin, proof_stage
 PROP = "C12"
 DRIVER = Driver("driver_c12", "Drivers/C12.lean")
 CFGS = ["shared", "separate", "shared_secret", "shared_purge", "separate_purge"]
+# the layout strat stores [datetime, result] (early / soft): not with the pickling serializer of shared_secret (the virtual
+# clock replaces datetime.datetime, which pickle cannot look up)
+STRAT_CFGS = ["shared", "separate", "shared_purge", "separate_purge"]
 LAYOUTS = ["plain", "templ", "decor", "mut"]
 BIGS = [100, 101, 150, 200, 201, 230]
 
@@ -30,8 +34,15 @@ TRUSTED = [
     "the model works on the TTL map (C01) and has no capacity: the property's hypothesis 'store within capacity' is built in (runs use size=100000)",
     "tag registry abstracted in the main theorems as the function key -> tags; its template/regex layer (cashews/formatter.py template_to_re_pattern, TagsRegistry.get_key_tags) is modelled relationally in Model/TagTemplates.lean (theorems registry_recovers_fields, registry_tag_is_writers_tag) and compared with the harness's own field substitution on every universe key of every case and on a sweep of random well-separated templates; that Python's re returns *a* match of the modelled relation is trusted",
     "harness: virtual clock (harness/vtime.py), canonicalisation, purge-sweep splicing, raw peeks into Memory.store used only by the oracle and the statistics (harness/taghist.py)",
+    "the decorators early / soft / hit / dynamic are modelled as programs over the wrapper commands (Model/Tags.lean earlyCall, softCall, hitCall: which commands the "
+    "decorator issues, decided from the model state - early / soft deadline stored next to the value, hit counter); that asyncio.gather runs the in-memory commands of hit "
+    "in the order listed, and that calls are sequential (background recalculations are awaited before the next command), is part of the tie; the harness's own log takes "
+    "'the decorator wrote the key with this call's tags' from 'the body ran'",
     "decorator calls: the body is a harness function returning a fresh token (and, in the layout mut, applying a scripted in-place mutation to its list / dict argument); the tags expected of the entry are rendered by the harness from a private copy of the arguments before the call (harness/taghist.py render / fmt: lists joined by ':', dicts as sorted key:value pairs); thunder protection is on (default) but calls are sequential",
 ]
+
+TRIVIAL_STATES = ("decorator_hit", "unregistered_tag_used(not judged)", "purge_sweeps_spliced", "foreign_tags_of_lock_keys(not judged)",
+                  "hit_counter_tagged_incr")
 
 _layouts: dict[str, taghist.Layout] = {}
 
@@ -215,6 +226,8 @@ def signature(r: taghist.Runner, ds) -> str:
             return "incr-tag-ttl"
         if st.get("shorter_member_after_longer") or st.get("ttl_less_member_after_finite"):
             return "tag-set-ttl-of-latest-add"
+        if st.get("decorator_rewrites_live_entry"):
+            return "complete-after-decorator-rewrite"
         return "complete"
     return "precise"
 
@@ -304,6 +317,17 @@ def run(chk: Check) -> int:
     for i in range(nmut):
         cases.append((f"mutcall:{i}", CFGS[i % len(CFGS)], "mut", taghist.gen_mutcall(rng, layout("mut"))))
 
+    nstrat = chk.budget(260, 3000)
+    for i in range(nstrat):
+        cases.append((f"strat:{i}", STRAT_CFGS[i % len(STRAT_CFGS)], "strat", taghist.gen_strat_history(rng, layout("strat"), 30 if i % 3 else 12)))
+    nrefresh = chk.budget(520, 6000)
+    for i in range(nrefresh):
+        cases.append((f"refresh:{i}", STRAT_CFGS[i % len(STRAT_CFGS)], "strat", taghist.gen_refresh(rng, layout("strat"))))
+    exh3_len = chk.budget(4, 5)
+    exh3, nalpha3 = taghist.exhaustive_refresh_cases(layout("strat"), exh3_len)
+    for i, ops in enumerate(exh3):
+        cases.append((f"exh3:{i}", "shared" if i % 2 else "separate", "strat", ops))
+
     exh_len = chk.budget(3, 4)
     exh, nalpha = exhaustive_cases(exh_len)
     for i, ops in enumerate(exh):
@@ -332,6 +356,8 @@ def run(chk: Check) -> int:
         for (origin, cfg, lay, ops), (r, answers) in zip(chunk, results):
             evaluations += 1
             lname = "exhaustive" if origin.startswith("exh") else lay.split(":")[0]
+            if origin.startswith("exh3"):
+                lname = "exhaustive_strat"
             stream = origin.split(":")[0]
             by_stream[stream] = by_stream.get(stream, 0) + 1
             by_layout[lname] = by_layout.get(lname, 0) + 1
@@ -346,20 +372,23 @@ def run(chk: Check) -> int:
             for k in r.stats:
                 interesting[k] = interesting.get(k, 0) + 1
             notes += len(r.notes)
-            nontrivial = [k for k in r.stats if k not in ("decorator_hit", "unregistered_tag_used(not judged)", "purge_sweeps_spliced")]
+            nontrivial = [k for k in r.stats if k not in TRIVIAL_STATES and not k.endswith("_served_from_cache")]
             if nontrivial and r.oracle_sets:
                 distinct.add((cfg, lay, tuple(ops)))
+            want = None
             if nontrivial and r.oracle_sets and len(ops) <= 14:
-                want = None
                 if origin.startswith("gen:") and sampled.get("gen", 0) < 3:
                     want = "gen"
                 elif origin.startswith("recreate:") and "deltags_spares_key_recreated_after_delete_match_exact" in r.stats and not sampled.get("rec"):
                     want = "rec"
                 elif origin.startswith("mutcall:") and "decorator_body_mutated_argument_of_tag_template" in r.stats and not sampled.get("mut"):
                     want = "mut"
-                if want:
-                    sampled[want] = sampled.get(want, 0) + 1
-                    samples.append({"config": cfg, "layout": lay, "ops": ops, "impl": [o for _, o in r.eff], "states": sorted(r.stats)})
+            if nontrivial and r.oracle_sets and origin.startswith("refresh:") and sampled.get("refresh", 0) < 2 \
+                    and "deltags_tag_set_outlived_its_deadline_before_the_rewrite" in r.stats and len(ops) <= 40:
+                want = "refresh"
+            if want:
+                sampled[want] = sampled.get(want, 0) + 1
+                samples.append({"config": cfg, "layout": lay, "ops": ops, "impl": [o for _, o in r.eff], "states": sorted(r.stats)})
             dm, ds, gh = compare(r, answers)
             if dm is not None or ds is not None or gh is not None:
                 found += 1
@@ -387,8 +416,16 @@ def run(chk: Check) -> int:
                 "templ (6 keys, templated tags user:{user}/page:{page} + plain), decor (6 keys, tags attached by @cache(tags=...) and register_tag), "
                 "mut (7 keys r:{cols} / q:{opts} of decorated functions with a list / dict argument in key and tag templates; in about half of "
                 "the calls the body mutates the argument in place: append, sort, reverse, pop, insert, setdefault, pop key, clear, update), "
+                "strat (26 keys: one key family per decorator that takes tags= - early with foreground and with background recalculation, soft, "
+                "hit twice, dynamic, the simple @cache - with their lock / counter keys, plus a directly written family; per-argument tag tg:{x} shared by "
+                "the families and a plain tag; ttl and early_ttl vary per call), "
                 "big:N (N in 100..230 members under one tag, batching) and the malformed stream unreg (unregistered tag, not judged); delete_match "
-                "draws from glob patterns, wildcard-free patterns naming one key exactly and patterns matching nothing; two directed streams: "
+                "draws from glob patterns, wildcard-free patterns naming one key exactly and patterns matching nothing; directed streams: "
+                "strat (random histories of repeated decorated calls of a few functions, time, direct writes, every kind of deletion, delete_tags + probes), "
+                "refresh (a decorated call, time up to the window in which the decorator RE-WRITES the live entry - early: past early_ttl, soft: past soft_ttl, "
+                "hit / dynamic: update_after hits or more than cache_hits -, one to three re-writes with the same or another ttl, then time to around the "
+                "ORIGINAL deadline and the re-write's deadline, delete_tags of a tag of the call, probes and a further call; companions under the same tag "
+                "sometimes present), "
                 "recreate (tagged write, one explicit removal path - delete / delete_many / delete_match exact / delete_match glob / delete_tags of "
                 "another carried tag -, re-creation without the tag, delete_tags, with noise) and mutcall (decorated calls with mutating bodies and "
                 "controls, delete_tags of a tag rendered from the call-time arguments, probes and a further call); generated from "
@@ -401,7 +438,11 @@ def run(chk: Check) -> int:
                                "tagged incr, untagged overwrite, delete, 2s advance, delete_tags), each followed by delete_tags and a probe of both keys; "
                                f"and all {len(exh2)} histories of 1..{exh2_len} commands over a {nalpha2}-command alphabet of removal paths (tagged / untagged set of 2 keys, "
                                "delete, delete_many, delete_match with the exact name of either key, with a glob matching both, with a pattern matching nothing, "
-                               "2s advance, delete_tags of a second tag), same tail; the generated histories of the other layouts are sampled, not exhaustive",
+                               "2s advance, delete_tags of a second tag), same tail; "
+                               f"and all {len(exh3)} histories of 1..{exh3_len} commands over a {nalpha3}-command alphabet of decorator re-writes (a call of an early function with "
+                               "foreground recalculation, ttl 3s / early_ttl 1s; a call of a soft function, ttl 3s / soft_ttl 1s, same argument; advances of 1.125s and 2s; "
+                               "a short-lived direct write under the same tag), each followed by delete_tags of the "
+                               "per-argument tag and probes; the generated histories of the other layouts are sampled, not exhaustive",
         "cases_by_stream": by_stream,
         "delete_tags_commands_judged": deltags_checked,
         "op_histogram": hist,
@@ -413,10 +454,13 @@ def run(chk: Check) -> int:
         "registry_layer_sweep": {"well_separated_templates_checked": reg_checked, "mismatches": len(reg_mism),
                                  "values_with_separator_tried(not judged)": reg_amb, "of_which_registry_tag_differs": reg_ambdiff},
         "trusted_base": TRUSTED,
-        "partial": "not sampled: more than 30 commands or 7 keys per history (except the big:N layouts), non-dyadic TTLs, tag values containing ':' in a "
+        "partial": "not sampled: more than 30 commands or 7 keys per history (except the layouts big:N and strat), non-dyadic TTLs, tag values containing ':' in a "
                    "key template with more than one field (the registry's greedy regex may then derive a different tag than the writer used; the list / dict "
                    "arguments of the layout mut are the only field of their key template), decorated functions mutating attributes of object arguments or "
-                   "called concurrently, the early/soft/hit/iterator decorators' tags=, expire()/set_many on tagged keys (outside the "
+                   "called concurrently; decorated calls running concurrently with each other or with delete_tags (early's lock contention, thunder protection), decorated "
+                   "bodies that raise or whose result the condition rejects (no write), soft's fallback to the stale entry, early_ttl / soft_ttl defaults (0.33 ttl: "
+                   "not dyadic), values stored by early / soft through the pickling serializer (configuration shared_secret is not used with the layout strat), "
+                   "which value a re-writing call returns (not compared); failover and iterator take no tags=; expire()/set_many on tagged keys (outside the "
                    "property's alphabet), Redis/diskcache set_add (not installed here; their set TTL still follows the latest add - known finding recorded by the coordinator)",
     })
     chk.assumptions.extend(TRUSTED)
